@@ -28,6 +28,13 @@ def binding_rule(chk, repo, clause='C12-a'):
             chk.ob(clause, 'B3-binding', caller.key, _ord(s, ords), not mm,
                    '; '.join(f'argument `{a}` is bound to parameter `{p}`' for p, a in mm) or 'like-named binding',
                    s.loc())
+            # an option the caller itself takes is handed on, not silently replaced by the callee's default
+            own = set(caller.param_names())
+            dropped = [n for n in sorted(NAMES & own & set(s.callee.param_names())) if n not in s.binding and not s.star]
+            if dropped:
+                chk.ob(clause, 'B5-default', caller.key, f'{_ord(s, {})} forwards ' + ', '.join(dropped), False,
+                       f'`{", ".join(dropped)}` of {caller.key} is not passed on to {s.callee.key}: the callee falls back on its default',
+                       s.loc())
 
 
 
